@@ -368,7 +368,7 @@ func main() {
 	r := vh.NewRun("C13", "exploration")
 	for _, kind := range []kit.Kind{kit.SJSON, kit.SSSE, kit.SLJSON, kit.SLSSE, kit.LSSE} {
 		for _, K := range []int{2, 8, r.Pick(16, 32)} {
-			scenario(r, kind, K, r.Pick(25, 250))
+			scenario(r, kind, K, r.Pick(25, 1000))
 		}
 	}
 	r.Finish("K = 2 / 8 / 16-32 raw clients, each with a unique header token, against Streamable (stateful / stateless, JSON / SSE answers) and legacy SSE servers configured with two HTTP context functions (the second derives its value from the first's), a tool / prompt / resource list filter keyed on the token, and a middleware; per round every client issues one gated tool call (all K handlers are inside at the same time, then released together) and three list requests; each echo (context values, session via both accessors, server handle, notification sender by effect) and each list must be the requester's own; middleware observations are joined to requests through the request id. Distinct = (server kind, stage, K).",
